@@ -49,10 +49,13 @@ def txt(bts, n=400):
 
 # ------------------------------------------------------------------------------------------------ cases
 
-def mk_case(family, tag, ops, db=F.PHREEQC_DAT, sw=(), fn=(), pre=(), files=None, probe=PROBE, timeout=None):
+GENERIC_PROBE = "SOLUTION 1\n pH 7\n Na 1\n Cl 1\nUSER_PRINT\n 10 PRINT \"probe\", MU, TOT(\"Na\")\nEND\nUSE solution 1\nREACTION 1\n NaCl 1\n 0.01\nEND\nDUMP\n -all\nEND\n"
+
+
+def mk_case(family, tag, ops, db=F.PHREEQC_DAT, sw=(), fn=(), pre=(), files=None, probe=PROBE, timeout=None, reload=None, reload_str=False):
     """ops / pre: list of (kind, payload); kind in run runfile acc loaddb loaddbstr; payload bytes (text) or str (path)"""
     return dict(family=family, tag=tag, db=db, sw=list(sw), fn=list(fn), pre=list(pre), ops=list(ops), files=files or {}, probe=probe,
-                timeout=timeout)
+                timeout=timeout, reload=reload, reload_str=reload_str)
 
 
 def case_to_json(c):
@@ -100,32 +103,32 @@ def gen_case(rng, seeds):
         sw[0] = ("errstr", 0)
     pre = [("run", WARN_PRE)] if rng.random() < 0.25 else []
     c = mk_case("?", "", [], sw=sw, pre=pre)
-    if r < 0.33:
+    if r < 0.30:
         name, text, db = rng.choice(seeds)
         t, kinds = F.mutate(rng, text)
         c.update(family="mutate", tag=name + ":" + "+".join(kinds), db=db)
         c["ops"] = entry_variant(rng, t, c)
-    elif r < 0.56:
+    elif r < 0.50:
         t, keys = F.grammar_input(rng)
         c.update(family="grammar", tag="+".join(keys))
         c["ops"] = entry_variant(rng, t, c)
-    elif r < 0.70:
+    elif r < 0.62:
         t, kind = F.basic_input(rng)
         c.update(family="basic", tag=kind)
         c["ops"] = entry_variant(rng, t, c)
-    elif r < 0.77:
+    elif r < 0.69:
         t, kind = F.entities_input(rng)
         c.update(family="entities", tag=kind)
         c["ops"] = entry_variant(rng, t, c)
-    elif r < 0.83:
+    elif r < 0.74:
         t, kind = F.extreme_input(rng)
         c.update(family="extreme", tag=kind)
         c["ops"] = entry_variant(rng, t, c)
-    elif r < 0.87:
+    elif r < 0.77:
         t, kind = F.bytes_input(rng)
         c.update(family="bytes", tag=kind)
         c["ops"] = entry_variant(rng, t, c)
-    elif r < 0.94:
+    elif r < 0.87:
         t, tag = F.database_text(rng)
         c.update(family="database", tag=tag)
         if rng.random() < 0.6:
@@ -133,6 +136,11 @@ def gen_case(rng, seeds):
         else:
             c["files"]["db_mut.dat"] = t
             c["ops"] = [("loaddb", b"db_mut.dat")]
+    elif r < 0.94 and MULTISIM_SHARE[0]:
+        t, files, kind = F.multisim_input(rng)
+        c.update(family="multisim", tag=kind)
+        c["files"].update(files)
+        c["ops"] = entry_variant(rng, t, c)
     else:
         fc = F.file_case(rng)
         c.update(family="files", tag=fc["kind"])
@@ -151,6 +159,35 @@ def gen_case(rng, seeds):
                 c["ops"].append(("runfile", b"in_file.pqi"))
             else:
                 c["ops"].append((k, p))
+    if c["ops"] and c["ops"][0][0] in ("run", "runfile", "acc") and rng.random() < 0.3:
+        make_history(rng, c, seeds)
+    return c
+
+
+MULTISIM_SHARE = [True]
+_DBS = []
+
+
+def make_history(rng, c, seeds):
+    """turn a single-call case into a history: 1-3 calls (the generated one first or last, other bad / good calls around it), then the reload with
+    ANY shipped database (END-terminated or read to end-of-file), as a file or as a string, and a probe every database can run"""
+    if not _DBS:
+        _DBS.extend(F.shipped_databases())
+    extra = []
+    for _ in range(rng.choice([0, 1, 1, 2])):
+        if rng.random() < 0.6:
+            t, files, kind = F.multisim_input(rng)
+            c["files"].update(files)
+        else:
+            t = F.b(rng.choice(F.VALID_SIMS)) if rng.random() < 0.4 else F.bad_sim(rng)
+        extra.append(rng.choice([("run", t), ("run", t), ("acc", t)]))
+    c["ops"] = (c["ops"] + extra) if rng.random() < 0.7 else (extra + c["ops"])
+    path, has_end = rng.choice(_DBS)
+    c["reload"] = path
+    c["reload_str"] = rng.random() < 0.4
+    c["probe"] = GENERIC_PROBE
+    c["tag"] = f"history[{len(c['ops'])} calls; reload {path.rsplit('/', 1)[-1]}{'' if has_end else ' (no END)'}{' as string' if c['reload_str'] else ''}] " + c["tag"]
+    c["history"] = dict(calls=len(c["ops"]), reload=path.rsplit("/", 1)[-1], reload_has_end=has_end, as_string=c["reload_str"])
     return c
 
 
@@ -215,6 +252,8 @@ def case_script(c, cid, timeout):
     L += [f"op {k} {hx(p)}" for k, p in c["ops"]]
     if c.get("probe"):
         L.append(f"probe {hx(c['probe'])}")
+    if c.get("reload"):
+        L.append(f"reload {hx(c['reload'])}" + (" str" if c.get("reload_str") else ""))
     L.append("go")
     return L
 
@@ -279,7 +318,7 @@ def run_one(exe, c, timeout):
 # ------------------------------------------------------------------------------------------------ analysis
 
 RESOURCE = re.compile(r"allocation-size-too-big|out-of-memory|out of memory|failed to allocate|hard rss limit|requested allocation size|"
-                      r"calloc-overflow|exceeds maximum supported size|AddressSanitizer: stack-overflow.*\n.*\n.*malloc", re.I)
+                      r"calloc-overflow|exceeds maximum supported size|<memory cannot be printed>|AddressSanitizer: stack-overflow.*\n.*\n.*malloc", re.I)
 FRAME = re.compile(r"#\d+ 0x[0-9a-f]+ in (.+?) (/\S+?):(\d+)")
 
 
@@ -384,8 +423,11 @@ def parse_case(rec):
             cur["views"][w[2]] = w[3:]
         elif w[0] == "ACC" and cur is not None:
             cur["acc"] = w[2:]
+        elif w[0] == "ISTK" and cur is not None:
+            cur["istk"] = int(w[2])
+            cur["dbloaded"] = w[3] == "1"
         elif w[0] == "RL":
-            P["RL"] = (int(w[1]), w[2], w[3] if len(w) > 3 else "-")
+            P["RL"] = (int(w[1]), w[2], w[3] if len(w) > 3 else "-", int(w[4]) if len(w) > 4 else 0)
         elif w[0] == "RLB":
             P["RLB"] = (int(w[1]), w[2])
         elif w[0] == "PROBE":
@@ -435,11 +477,21 @@ def analyse(ctx, exe, c, rec):
             phase = "op%d(GetComponentCount after %s)" % (last, c["ops"][last][0])
         elif P["RL"] is None:
             phase = "reload"
+        elif P["RLB"] is None:
+            phase = "op-load-on-new-instance"            # the comparison instance died loading the reload database: nothing to do with the history
         else:
             phase = "probe"
         err = end["stderr"]
+        info["phase"] = phase
         if end["status"] == "timeout" or (end["status"] == "signal" and end["code"] in (9, 24)):     # SIGKILL by the harness / SIGXCPU
+            info["samples"] = err[err.find("#SAMPLE"):] if "#SAMPLE" in err else ""
             return dict(status="notjudged:timeout", issues=[], info=info)
+        # precondition of C08: no failed call since the last successful load — a death inside a call that follows a failed call is not judged
+        done_ops = [k for k in sorted(P["ops"]) if P["ops"][k]["opr"] is not None]
+        failed_before = [k for k in done_ops if int(P["ops"][k]["opr"]["ret"]) != 0 or P["ops"][k]["opr"]["exc"] != "-"]
+        if phase.startswith("op") and failed_before and last > failed_before[0] and not (P["ops"][last].get("acc") == ["begin"] and last == failed_before[0]):
+            kind, fn = site_of_report(err)
+            return dict(status="notjudged:died-in-call-after-a-failed-call", issues=[], info=dict(info, site=f"{kind}:{fn}"))
         if RESOURCE.search(err) and not P["X"]:
             return dict(status="notjudged:resource-limit-under-sanitizer", issues=[], info=dict(info, resource=err[:200]))
         if P["X"]:
@@ -453,6 +505,7 @@ def analyse(ctx, exe, c, rec):
             issues.append((cls, f"{kind}:{fn}", f"process died during {phase}: {end['status']} {end['code']}; " + err[:1500]))
     # ---- per judged op
     groups, gmeta = [], []
+    failed_seen = False
     for k in sorted(P["ops"]):
         o = P["ops"][k]
         if o["opr"] is None:
@@ -460,6 +513,15 @@ def analyse(ctx, exe, c, rec):
         r = o["opr"]
         ret = int(r["ret"])
         evs = o["events"]
+        # the engine's input-stream stack must be empty when an API call has returned (Model/ErrAcct: streams_empty_after_call)
+        if o.get("istk", 0) != 0:
+            issues.append(("d", "input-stream-stack-not-empty", f"{o['kind']} returned {ret} and left {o['istk']} entries on the engine's input-stream stack "
+                                                                 "(pointers to the caller's destroyed stream objects)"))
+        if failed_seen:
+            info["calls_after_failed_call_not_judged"] = info.get("calls_after_failed_call_not_judged", 0) + 1
+            continue
+        if ret != 0 or r["exc"] != "-":
+            failed_seen = True
         nerr = sum(1 for e in evs if e[1] == "err")
         nwarn = sum(1 for e in evs if e[1] == "warn")
         info["nerr"] += nerr
@@ -538,6 +600,8 @@ def analyse(ctx, exe, c, rec):
             issues.append(("c", key, f"{o['kind']}: GetWarningStringLine* ({len(wl)} lines: {[txt(unhx(x), 60) for x in wl[:2]]}) do not describe this call's warning string "
                                      f"({len(lines_of(unhx(warnstr)))} lines)"))
     # ---- reload + probe (C07 oracle)
+    if P["RL"] is not None and P["RL"][3] != 0:
+        issues.append(("d", "input-stream-stack-not-empty", f"LoadDatabase (reload) left {P['RL'][3]} entries on the engine's input-stream stack"))
     if not died:
         rl, rlb = P["RL"], P["RLB"]
         info["reload_compared"] = int(bool(P["probe"]) and P["probe"][0] in ("same", "diff"))
@@ -609,6 +673,11 @@ def shrink_case(ctx, exe, c, key, timeout):
     return c2 if any(k == key for _, k, _ in a["issues"]) else c
 
 
+ALIASES = [
+    # a loop record allocated by an immediate FOR at compile time is freed by the first basic_run and stays in the owner (listed key 6)
+    (re.compile(r"^asan-heap-use-after-free:PBasic::clearloops<"), "asan-heap-use-after-free:PBasic::clearloops-PBasic::cmdnew"),
+    (re.compile(r"^asan-attempting-double-free:PBasic::clearloops<"), "asan-heap-use-after-free:PBasic::clearloops-PBasic::cmdnew"),
+]
 KNOWN_KEYS = {
     # issue key produced by analyse → key in known_findings.txt
     "asan-SEGV:PBasic::factor<PBasic::upexpr": "basic-peek-poke",
@@ -641,6 +710,9 @@ def finding_key(key, c):
     if EXTREME_UB.match(key) and has_extreme_number(c):
         # pure integer-arithmetic UB (signed overflow, negation of INT_MIN, out-of-range float→int conversion) driven by an extreme number in the input
         return "ubsan-extreme-integer-input"
+    for rx, k_ in ALIASES:
+        if rx.match(key):
+            return k_
     if key in KNOWN_KEYS:
         text = b" ".join(p for _, p in c["ops"]).lower()
         if b"peek" in text or b"poke" in text:
@@ -693,14 +765,69 @@ def constant_rate_signature(c):
     return False
 
 
-def judge_timeout(ctx, plain, c, timeout):
-    """a timeout alone cannot tell a hang from a slow run: re-run the case alone on the plain (3-5x faster) build"""
+def sample_sites(exe, text):
+    """innermost engine functions of the stack samples the harness took before killing a timed-out child"""
+    sites = []
+    for blk in text.split("#SAMPLE")[1:]:
+        addrs = re.findall(r"\[(0x[0-9a-f]+)\]", blk)
+        if not addrs:
+            continue
+        try:
+            r = subprocess.run(["addr2line", "-f", "-C", "-e", str(exe)] + addrs[:40], capture_output=True, text=True, timeout=60)
+        except (OSError, subprocess.TimeoutExpired):
+            continue
+        L = r.stdout.splitlines()
+        fn = None
+        for i in range(0, len(L) - 1, 2):
+            f, loc = L[i], L[i + 1]
+            if "/src/" in loc and "ph_fuzz" not in loc:
+                fn = re.sub(r"\(.*", "", f).replace("Phreeqc::", "")
+                break
+            if fn is None and ("Phreeqc::" in f or "PBasic::" in f or "IPhreeqc::" in f or "cxx" in f or "CParser" in f or "PHRQ_io" in f):
+                fn = re.sub(r"\(.*", "", f).replace("Phreeqc::", "")
+                break
+        sites.append(fn or "?")
+    return sites
+
+
+BIG_NUMBER = re.compile(rb"(?<![A-Za-z_.])\d{4,}|[eE][+]?\d{1,3}\b")
+
+
+def small_input(c):
+    """no count/size the input could legitimately ask a long computation for: total text < 4 kB and no number >= 1000 or with an exponent"""
+    tot = 0
+    for _, p_ in c["ops"]:
+        t = p_ if isinstance(p_, bytes) else p_.encode()
+        t = c["files"].get(t.decode("latin-1"), t)
+        tot += len(t)
+        if BIG_NUMBER.search(t):
+            return False
+    for t in c["files"].values():
+        tot += len(t)
+        if BIG_NUMBER.search(t):
+            return False
+    return tot < 4096 and not any(k in ("loaddb", "loaddbstr") for k, _ in c["ops"])
+
+
+def judge_timeout(ctx, plain, c, timeout, info=None):
+    """a timeout alone cannot tell a hang from a slow run: re-run the case alone on the plain (3-5x faster) build. Reported are
+    (1) the listed constant-rate KINETICS signature, (2) small inputs (no large number, < 4 kB, no TRANSPORT/ADVECTION/KINETICS time stepping) whose two
+    stack samples on the plain build sit in the same engine function: keyed `hang:<function>`"""
     rec = run_one(plain, c, timeout)
     if rec is None or rec["end"] is None or rec["end"]["status"] != "timeout":
         return None
     if constant_rate_signature(c):
         return ("hang", "hang-kinetics-constant-rate", f"the call did not return within {timeout} s on the sanitizer build nor, re-run alone, on the plain build "
                                                          "(RATES program whose SAVE does not depend on TIME)")
+    err = rec["end"]["stderr"]
+    sites = sample_sites(plain, err[err.find("#SAMPLE"):] if "#SAMPLE" in err else "")
+    text = b" ".join((p_ if isinstance(p_, bytes) else p_.encode()) for _, p_ in c["ops"]).upper() + b" ".join(c["files"].values()).upper()
+    stepping = any(k in text for k in (b"TRANSPORT", b"ADVECTION", b"KINETICS", b"INVERSE", b"-STEPS", b"FOR ", b"WHILE", b"GOTO", b"GOSUB"))
+    if small_input(c) and not stepping and len(sites) >= 2 and sites[0] == sites[1] and sites[0] != "?":
+        return ("hang", "hang:" + sites[0], f"the call did not return within {timeout} s on the sanitizer build nor, re-run alone, on the plain build; both stack "
+                                             f"samples taken 0.4 s apart are inside {sites[0]} (input < 4 kB, no number >= 1000, no time stepping or BASIC loop)")
+    if info is not None:
+        info["unexplained_timeout_sites"] = sites
     return None
 
 
@@ -733,7 +860,8 @@ def run(ctx):
     evals = nontrivial = 0
     stats = dict(error_events=0, warning_events=0, calls_with_stop=0, nonzero_returns=0, zero_returns=0, timeouts_rerun_on_plain_build=0, timeouts_confirmed_on_plain_build=0,
                  calls_compared_with_model=0, reload_probes_compared_with_new_instance=0)
-    mut_kinds = {}
+    after_failed = {}
+    mut_kinds, hang_sites, hist_stats = {}, {}, dict(histories=0, calls={}, reload_db={}, reload_no_END=0, reload_as_string=0)
     chunk = 960
     for base in range(0, len(cases), chunk):
         part = cases[base:base + chunk]
@@ -748,6 +876,15 @@ def run(ctx):
                 for k in c["tag"].split(":", 1)[-1].split("+"):
                     mut_kinds[k.split("/")[0]] = mut_kinds.get(k.split("/")[0], 0) + 1
             inf = a["info"]
+            if c.get("history"):
+                h = c["history"]
+                hist_stats["histories"] += 1
+                hist_stats["calls"][h["calls"]] = hist_stats["calls"].get(h["calls"], 0) + 1
+                hist_stats["reload_db"][h["reload"]] = hist_stats["reload_db"].get(h["reload"], 0) + 1
+                hist_stats["reload_no_END"] += int(not h["reload_has_end"])
+                hist_stats["reload_as_string"] += int(h["as_string"])
+            if a["status"].startswith("notjudged:died-in-call-after"):
+                after_failed[inf.get("site", "?")] = after_failed.get(inf.get("site", "?"), 0) + 1
             if a["status"] == "judged":
                 stats["error_events"] += inf.get("nerr", 0)
                 stats["warning_events"] += inf.get("nwarn", 0)
@@ -761,12 +898,17 @@ def run(ctx):
                 if len(ctx.cov["samples"]) < 3 and inf.get("nerr", 0) and c["family"] != "corpus":
                     ctx.sample(dict(family=c["family"], tag=c["tag"][:80], input=txt(c["ops"][0][1], 300), returns=inf["ret"], error_events=inf["nerr"],
                                     warning_events=inf["nwarn"]))
-            elif a["status"] == "notjudged:timeout" and (stats["timeouts_rerun_on_plain_build"] < ctx.n(6, 60) or c["family"] == "corpus"):
+            elif a["status"] == "notjudged:timeout" and (stats["timeouts_rerun_on_plain_build"] < ctx.n(8, 80) or c["family"] == "corpus"):
                 stats["timeouts_rerun_on_plain_build"] += 1
-                iss = judge_timeout(ctx, plain, c, c.get("timeout") or timeout)
+                iss = judge_timeout(ctx, plain, c, c.get("timeout") or timeout, inf)
                 if iss:
                     stats["timeouts_confirmed_on_plain_build"] += 1
                     a["issues"].append(iss)
+                elif c["family"] == "corpus":
+                    # a fixed regression input that no longer returns is never only "counted"
+                    a["issues"].append(("hang", "hang:corpus:" + c["tag"], f"corpus case {c['tag']} did not return within its time limit (sanitizer build)"))
+                for st_ in inf.get("unexplained_timeout_sites", []):
+                    hang_sites[st_] = hang_sites.get(st_, 0) + 1
             for iss in a["issues"]:
                 cls_count[iss[0]] = cls_count.get(iss[0], 0) + 1
                 report(ctx, exe, c, iss, timeout, seen, withheld=withheld)
@@ -778,6 +920,9 @@ def run(ctx):
     ctx.cov["distinct_nontrivial"] = nontrivial
     ctx.cov["family_outcomes"] = fam
     ctx.cov["mutation_kinds"] = mut_kinds
+    ctx.cov["histories"] = hist_stats
+    ctx.cov["timeouts_not_routed_sampled_sites"] = hang_sites
+    ctx.cov["deaths_in_calls_after_a_failed_call_not_judged"] = after_failed
     ctx.cov["outcomes"] = status
     ctx.cov["event_statistics"] = stats
     ctx.cov["issue_classes"] = cls_count
@@ -813,7 +958,7 @@ def replay(ctx, data):
     rec = run_one(exe, c, 60)
     a = analyse(ctx, exe, c, rec)
     if a["status"] == "notjudged:timeout":
-        iss = judge_timeout(ctx, plain, c, c.get("timeout") or 30)
+        iss = judge_timeout(ctx, plain, c, c.get("timeout") or 30, a["info"])
         if iss:
             a["issues"].append(iss)
     print("replay:", a["status"], [(cl, k, t[:300]) for cl, k, t in a["issues"]])
